@@ -116,7 +116,7 @@ impl Range {
                     return Err(error)
                 }
                 let num_usize : u64 = boxed_parse.unwrap();
-                range.start = filelength - num_usize;
+                range.start = filelength.saturating_sub(num_usize);
                 range.end = filelength;
             }
 
